@@ -60,7 +60,11 @@ class Target:
         k = self.kind
         if k == "gauss":
             r = t - self.mean
-            return float(-0.5 * r @ self.prec @ r)
+            with np.errstate(all="ignore"):
+                v = float(-0.5 * r @ self.prec @ r)
+            # a log-density never exceeds its maximum: astronomically distant points (|r| ~ 1e154, where the quadratic form
+            # overflows with mixed signs) are given what the exact value would round to
+            return v if v <= 0.0 else -np.inf
         if k == "cliff":
             return float(-self.height * np.sum(t > self.edges) - 0.5 * np.sum(((t - self.edges) / 3.0) ** 2))
         if k == "expprod":
